@@ -1,0 +1,152 @@
+//! Verification hook (compiled only with `--cfg ckb_verif`): thin public wrappers around the crate-private
+//! orphan-transaction pool and verify queue, so that an external harness can drive the real structures
+//! operation by operation.  Every method delegates to the method of the same name; nothing is added.
+use crate::component::orphan::{DEFAULT_MAX_ORPHAN_TRANSACTIONS, ORPHAN_TX_EXPIRE_TIME, OrphanPool};
+use crate::component::verify_queue::VerifyQueue;
+use ckb_network::PeerIndex;
+use ckb_types::{
+    core::{Cycle, TransactionView, tx_pool::Reject},
+    packed::{Byte32, OutPoint, ProposalShortId},
+};
+
+/// `component::orphan::OrphanPool`
+#[derive(Default)]
+pub struct VerifOrphanPool(OrphanPool);
+
+/// an orphan entry: transaction, announcing peer, declared cycles, expiry time (s)
+pub type VerifOrphanEntry = (TransactionView, PeerIndex, Cycle, u64);
+
+impl VerifOrphanPool {
+    /// `DEFAULT_MAX_ORPHAN_TRANSACTIONS`
+    pub const MAX_ORPHANS: usize = DEFAULT_MAX_ORPHAN_TRANSACTIONS;
+    /// `ORPHAN_TX_EXPIRE_TIME` (seconds)
+    pub const EXPIRE_TIME: u64 = ORPHAN_TX_EXPIRE_TIME;
+
+    /// `OrphanPool::new`
+    pub fn new() -> Self {
+        VerifOrphanPool(OrphanPool::new())
+    }
+    /// `OrphanPool::len`
+    pub fn len(&self) -> usize {
+        self.0.len()
+    }
+    /// `OrphanPool::is_empty`
+    pub fn is_empty(&self) -> bool {
+        self.0.is_empty()
+    }
+    /// `OrphanPool::contains_key`
+    pub fn contains_key(&self, id: &ProposalShortId) -> bool {
+        self.0.contains_key(id)
+    }
+    /// `OrphanPool::get`
+    pub fn get(&self, id: &ProposalShortId) -> Option<VerifOrphanEntry> {
+        self.0
+            .get(id)
+            .map(|e| (e.tx.clone(), e.peer, e.cycle, e.expires_at))
+    }
+    /// `OrphanPool::remove_orphan_tx`
+    pub fn remove_orphan_tx(&mut self, id: &ProposalShortId) -> Option<VerifOrphanEntry> {
+        self.0
+            .remove_orphan_tx(id)
+            .map(|e| (e.tx, e.peer, e.cycle, e.expires_at))
+    }
+    /// `OrphanPool::remove_orphan_txs`
+    pub fn remove_orphan_txs(&mut self, ids: Vec<ProposalShortId>) {
+        self.0.remove_orphan_txs(ids.into_iter())
+    }
+    /// `OrphanPool::add_orphan_tx`
+    pub fn add_orphan_tx(
+        &mut self,
+        tx: TransactionView,
+        peer: PeerIndex,
+        declared_cycle: Cycle,
+    ) -> Vec<Byte32> {
+        self.0.add_orphan_tx(tx, peer, declared_cycle)
+    }
+    /// `OrphanPool::find_by_previous`
+    pub fn find_by_previous(&self, tx: &TransactionView) -> Vec<ProposalShortId> {
+        self.0.find_by_previous(tx).into_iter().cloned().collect()
+    }
+    /// read-only view of `entries`: the stored ids
+    pub fn ids(&self) -> Vec<ProposalShortId> {
+        self.0.entries.keys().cloned().collect()
+    }
+    /// read-only view of `by_out_point`
+    pub fn by_out_point(&self) -> Vec<(OutPoint, Vec<ProposalShortId>)> {
+        self.0
+            .by_out_point
+            .iter()
+            .map(|(k, v)| (k.clone(), v.iter().cloned().collect()))
+            .collect()
+    }
+}
+
+/// `component::verify_queue::VerifyQueue`
+pub struct VerifVerifyQueue(VerifyQueue);
+
+/// a verify-queue entry: transaction, `remote` (declared cycles, peer)
+pub type VerifQueueEntry = (TransactionView, Option<(Cycle, PeerIndex)>);
+
+impl VerifVerifyQueue {
+    /// `VerifyQueue::new`
+    pub fn new(large_cycle_threshold: u64) -> Self {
+        VerifVerifyQueue(VerifyQueue::new(large_cycle_threshold))
+    }
+    /// `VerifyQueue::is_empty`
+    pub fn is_empty(&self) -> bool {
+        self.0.is_empty()
+    }
+    /// `VerifyQueue::len`
+    pub fn len(&self) -> usize {
+        self.0.len()
+    }
+    /// the private counter `total_tx_size`
+    pub fn total_tx_size(&self) -> usize {
+        self.0.verif_total_tx_size()
+    }
+    /// `VerifyQueue::is_full`
+    pub fn is_full(&self, add_tx_size: usize) -> bool {
+        self.0.is_full(add_tx_size)
+    }
+    /// `VerifyQueue::contains_key`
+    pub fn contains_key(&self, id: &ProposalShortId) -> bool {
+        self.0.contains_key(id)
+    }
+    /// `VerifyQueue::get_tx_by_id`
+    pub fn get_tx_by_id(&self, id: &ProposalShortId) -> Option<VerifQueueEntry> {
+        self.0.get_tx_by_id(id).map(|e| (e.tx.clone(), e.remote))
+    }
+    /// `VerifyQueue::remove_tx`
+    pub fn remove_tx(&mut self, id: &ProposalShortId) -> Option<VerifQueueEntry> {
+        self.0.remove_tx(id).map(|e| (e.tx, e.remote))
+    }
+    /// `VerifyQueue::remove_txs`
+    pub fn remove_txs(&mut self, ids: Vec<ProposalShortId>) {
+        self.0.remove_txs(ids.into_iter())
+    }
+    /// `VerifyQueue::remove_txs_by_peer`
+    pub fn remove_txs_by_peer(&mut self, peer: &PeerIndex) {
+        self.0.remove_txs_by_peer(peer)
+    }
+    /// `VerifyQueue::pop_front`
+    pub fn pop_front(&mut self, only_small_cycle: bool) -> Option<VerifQueueEntry> {
+        self.0.pop_front(only_small_cycle).map(|e| (e.tx, e.remote))
+    }
+    /// `VerifyQueue::peek`
+    pub fn peek(&self, only_small_cycle: bool) -> Option<ProposalShortId> {
+        self.0.peek(only_small_cycle)
+    }
+    /// `VerifyQueue::add_tx`
+    pub fn add_tx(
+        &mut self,
+        tx: TransactionView,
+        is_proposal_tx: bool,
+        remote: Option<(Cycle, PeerIndex)>,
+    ) -> Result<bool, Reject> {
+        self.0.add_tx(tx, is_proposal_tx, remote)
+    }
+    /// `VerifyQueue::clear`
+    pub fn clear(&mut self) {
+        self.0.clear()
+    }
+}
